@@ -401,3 +401,12 @@ Definition reserved_free (e : entity) : bool :=
   && negb (bytes_eqb (response_name e) (bs "page"))
   && negb (match e_query e with Some q => q_events_in_get q | None => false end
            && bytes_eqb (response_name e) (bs "events")).
+
+(* ---- several entity declarations in one source file --------------------------------------------------
+   each declaration in the quantifier and free of reserved names, and the documented names of the three
+   packages distinct over the WHOLE file (the entities share the packages) *)
+Definition file_quantifier (es : list entity) : bool :=
+  forallb (fun e => in_quantifier e && reserved_free e) es
+  && nodup_bytes (flat_map sp_main_scope es)
+  && nodup_bytes (flat_map sp_service_scope es)
+  && nodup_bytes (flat_map sp_topic_scope es).
